@@ -528,7 +528,10 @@ func (c *ExpressionCalculator) evaluateOther(
 			if err != nil {
 				return false, err
 			}
-			result = variants.VariantFromBoolean(!result.AsBoolean())
+			// A null result (null operand) stays null
+			if result.Type() == variants.Boolean {
+				result = variants.VariantFromBoolean(!result.AsBoolean())
+			}
 			stack.Push(result)
 			return true, nil
 		}
